@@ -92,6 +92,8 @@ def functions():
     import mdtraj as md
     F = {}
 
+    # every per-frame function of the pinned tree is bit-stable alone / in company / reordered (verified over seeds 0-3 and the
+    # thorough tier), so every comparison is bitwise; the one allowance left is the mixed-cell-class rounding rule in run_case
     def reg(name, fn, exact=True, protein=False, cell=False):
         F[name] = dict(fn=fn, exact=exact, protein=protein, cell=cell)
 
@@ -105,8 +107,8 @@ def functions():
     reg("rmsd", lambda t, a: md.rmsd(_cp(t), _cp(a["ref"]), 0))
     reg("rmsd(parallel=False)", lambda t, a: md.rmsd(_cp(t), _cp(a["ref"]), 0, parallel=False))
     reg("rmsd(atom_indices)", lambda t, a: md.rmsd(_cp(t), _cp(a["ref"]), 0, atom_indices=a["subset"]))
-    reg("superpose", lambda t, a: _cp(t).superpose(_cp(a["ref"]), 0).xyz, exact=False)
-    reg("superpose(atom_indices)", lambda t, a: _cp(t).superpose(_cp(a["ref"]), 0, atom_indices=a["subset"]).xyz, exact=False)
+    reg("superpose", lambda t, a: _cp(t).superpose(_cp(a["ref"]), 0).xyz)
+    reg("superpose(atom_indices)", lambda t, a: _cp(t).superpose(_cp(a["ref"]), 0, atom_indices=a["subset"]).xyz)
     reg("shrake_rupley", lambda t, a: md.shrake_rupley(t, n_sphere_points=40))
     reg("shrake_rupley(residue)", lambda t, a: md.shrake_rupley(t, n_sphere_points=40, mode="residue"))
     reg("compute_dssp", lambda t, a: md.compute_dssp(t, simplified=False), protein=True)
@@ -116,15 +118,15 @@ def functions():
     reg("compute_neighbors", lambda t, a: [np.asarray(x) for x in md.compute_neighbors(t, 0.45, a["subset"][:6], periodic=False)])
     reg("compute_neighbors(periodic)", lambda t, a: [np.asarray(x) for x in md.compute_neighbors(t, 0.45, a["subset"][:6], periodic=True)], cell=True)
     reg("compute_neighborlist", lambda t, a: [_nl(md.compute_neighborlist(t, 0.4, frame=i)) for i in range(t.n_frames)])
-    reg("compute_contacts", lambda t, a: md.compute_contacts(t, a["respairs"], scheme="closest-heavy")[0], exact=False, protein=True)
-    reg("compute_contacts(ca)", lambda t, a: md.compute_contacts(t, a["respairs"], scheme="ca")[0], exact=False, protein=True)
-    reg("compute_rg", lambda t, a: md.compute_rg(t), exact=False)
-    reg("compute_center_of_mass", lambda t, a: md.compute_center_of_mass(t), exact=False)
-    reg("compute_center_of_geometry", lambda t, a: md.compute_center_of_geometry(t), exact=False)
-    reg("compute_gyration_tensor", lambda t, a: md.compute_gyration_tensor(t), exact=False)
-    reg("compute_inertia_tensor", lambda t, a: md.compute_inertia_tensor(t), exact=False)
+    reg("compute_contacts", lambda t, a: md.compute_contacts(t, a["respairs"], scheme="closest-heavy")[0], protein=True)
+    reg("compute_contacts(ca)", lambda t, a: md.compute_contacts(t, a["respairs"], scheme="ca")[0], protein=True)
+    reg("compute_rg", lambda t, a: md.compute_rg(t))
+    reg("compute_center_of_mass", lambda t, a: md.compute_center_of_mass(t))
+    reg("compute_center_of_geometry", lambda t, a: md.compute_center_of_geometry(t))
+    reg("compute_gyration_tensor", lambda t, a: md.compute_gyration_tensor(t))
+    reg("compute_inertia_tensor", lambda t, a: md.compute_inertia_tensor(t))
     reg("compute_drid", lambda t, a: md.compute_drid(t, atom_indices=a["subset"]))
-    reg("lprmsd", lambda t, a: md.lprmsd(_cp(t), _cp(a["ref"]), 0, atom_indices=a["subset"]), exact=False)
+    reg("lprmsd", lambda t, a: md.lprmsd(_cp(t), _cp(a["ref"]), 0, atom_indices=a["subset"]))
     reg("compute_phi", lambda t, a: md.compute_phi(t)[1], protein=True)
     reg("compute_chi1", lambda t, a: md.compute_chi1(t)[1], protein=True)
     # ---- wider table (FUNCTION_NAMES_WIDE): per-frame entry points, option values and code paths the table above never calls
@@ -136,38 +138,38 @@ def functions():
     reg("compute_psi", lambda t, a: md.compute_psi(t)[1], protein=True)
     reg("compute_omega", lambda t, a: md.compute_omega(t)[1], protein=True)
     reg("compute_chi2", lambda t, a: md.compute_chi2(t)[1], protein=True)
-    reg("compute_J3_HN_HA", lambda t, a: md.compute_J3_HN_HA(t)[1], exact=False, protein=True)
+    reg("compute_J3_HN_HA", lambda t, a: md.compute_J3_HN_HA(t)[1], protein=True)
     reg("compute_dssp(simplified)", lambda t, a: md.compute_dssp(t, simplified=True), protein=True)
     reg("shrake_rupley(probe=0.2,n=97)", lambda t, a: md.shrake_rupley(t, probe_radius=0.2, n_sphere_points=97))
     reg("shrake_rupley(change_radii)", lambda t, a: md.shrake_rupley(t, n_sphere_points=30, change_radii={"C": 0.2}))
     reg("compute_neighbors(haystack)", lambda t, a: [np.asarray(x) for x in md.compute_neighbors(t, 0.45, a["subset"][:6], haystack_indices=a["subset"][6:], periodic=False)])
     reg("compute_neighborlist(periodic)", lambda t, a: [_nl(md.compute_neighborlist(t, 0.4, frame=i, periodic=True)) for i in range(t.n_frames)], cell=True)
-    reg("compute_contacts(closest)", lambda t, a: md.compute_contacts(t, a["respairs"], scheme="closest")[0], exact=False, protein=True)
-    reg("compute_contacts(sidechain-heavy)", lambda t, a: md.compute_contacts(t, a["respairs"], scheme="sidechain-heavy")[0], exact=False, protein=True)
-    reg("compute_contacts(soft_min)", lambda t, a: md.compute_contacts(t, a["respairs"], scheme="closest-heavy", soft_min=True)[0], exact=False, protein=True)
-    reg("principal_moments", lambda t, a: md.principal_moments(t), exact=False)
-    reg("asphericity", lambda t, a: md.asphericity(t), exact=False)
-    reg("acylindricity", lambda t, a: md.acylindricity(t), exact=False)
-    reg("relative_shape_antisotropy", lambda t, a: md.relative_shape_antisotropy(t), exact=False)
-    reg("compute_directors", lambda t, a: md.compute_directors(t, indices=a["groups"]), exact=False)
-    reg("compute_nematic_order", lambda t, a: md.compute_nematic_order(t, indices=a["groups"]), exact=False)
-    reg("density", lambda t, a: md.density(t), exact=False, cell=True)
-    reg("dipole_moments", lambda t, a: md.dipole_moments(t, a["charges"]), exact=False)
+    reg("compute_contacts(closest)", lambda t, a: md.compute_contacts(t, a["respairs"], scheme="closest")[0], protein=True)
+    reg("compute_contacts(sidechain-heavy)", lambda t, a: md.compute_contacts(t, a["respairs"], scheme="sidechain-heavy")[0], protein=True)
+    reg("compute_contacts(soft_min)", lambda t, a: md.compute_contacts(t, a["respairs"], scheme="closest-heavy", soft_min=True)[0], protein=True)
+    reg("principal_moments", lambda t, a: md.principal_moments(t))
+    reg("asphericity", lambda t, a: md.asphericity(t))
+    reg("acylindricity", lambda t, a: md.acylindricity(t))
+    reg("relative_shape_antisotropy", lambda t, a: md.relative_shape_antisotropy(t))
+    reg("compute_directors", lambda t, a: md.compute_directors(t, indices=a["groups"]))
+    reg("compute_nematic_order", lambda t, a: md.compute_nematic_order(t, indices=a["groups"]))
+    reg("density", lambda t, a: md.density(t), cell=True)
+    reg("dipole_moments", lambda t, a: md.dipole_moments(t, a["charges"]))
     reg("unitcell_volumes", lambda t, a: t.unitcell_volumes, cell=True)
     reg("unitcell_vectors", lambda t, a: t.unitcell_vectors, cell=True)
     reg("rmsd(precentered)", lambda t, a: md.rmsd(_cp(t).center_coordinates(), _cp(a["ref"]).center_coordinates(), 0, precentered=True))
     reg("rmsd(ref_atom_indices)", lambda t, a: md.rmsd(_cp(t), _cp(a["ref"]), 0, atom_indices=a["subset"], ref_atom_indices=a["subset"][::-1].copy()))
-    reg("superpose(parallel=False)", lambda t, a: _cp(t).superpose(_cp(a["ref"]), 0, parallel=False).xyz, exact=False)
-    reg("superpose(ref_atom_indices)", lambda t, a: _cp(t).superpose(_cp(a["ref"]), 0, atom_indices=a["subset"], ref_atom_indices=a["subset"][::-1].copy()).xyz, exact=False)
+    reg("superpose(parallel=False)", lambda t, a: _cp(t).superpose(_cp(a["ref"]), 0, parallel=False).xyz)
+    reg("superpose(ref_atom_indices)", lambda t, a: _cp(t).superpose(_cp(a["ref"]), 0, atom_indices=a["subset"], ref_atom_indices=a["subset"][::-1].copy()).xyz)
     reg("center_coordinates", lambda t, a: _cp(t).center_coordinates().xyz)
-    reg("center_coordinates(mass_weighted)", lambda t, a: _cp(t).center_coordinates(mass_weighted=True).xyz, exact=False)
-    reg("compute_rg(masses)", lambda t, a: md.compute_rg(t, masses=np.abs(a["charges"]) + 1.0), exact=False)
+    reg("center_coordinates(mass_weighted)", lambda t, a: _cp(t).center_coordinates(mass_weighted=True).xyz)
+    reg("compute_rg(masses)", lambda t, a: md.compute_rg(t, masses=np.abs(a["charges"]) + 1.0))
     reg("compute_drid(all atoms)", lambda t, a: md.compute_drid(t.atom_slice(a["subset"])))
     reg("find_closest_contact(frame)", lambda t, a: [np.array(md.find_closest_contact(t, a["subset"][:5], a["subset"][5:], frame=i, periodic=False), dtype=np.float64)
                                                      for i in range(t.n_frames)])
     reg("make_molecules_whole", lambda t, a: _cp(t).make_molecules_whole(inplace=True).xyz, protein=True, cell=True)
     reg("image_molecules", lambda t, a: _cp(t).image_molecules(inplace=True, anchor_molecules=[set(list(t.topology.atoms)[:50])],
-                                                                other_molecules=[set(r.atoms) for r in list(t.topology.residues)[8:]]).xyz, exact=False, protein=True, cell=True)
+                                                                other_molecules=[set(r.atoms) for r in list(t.topology.residues)[8:]]).xyz, protein=True, cell=True)
     return F
 
 
